@@ -79,17 +79,43 @@ Lemma refine_rsa_ct_padded v bits :
   gen_rsa_ct_padded (to_mpibytes v) bits = zeros (bits / 8 - Z.of_nat (length (mpi_body v))) ++ mpi_body v.
 Proof. reflexivity. Qed.
 
-(* everything after the primitive call: same value, same exception class, for every octet string m *)
-Lemma refine_pkesk_open m : gen_pkesk_open m = gres_of_res (pkesk_open m).
+(* everything after the primitive call: same value, same exception class, for every octet string m.  The generated text
+   carries the two-step shape of the source (try: cipher id and key length, except IndexError / ValueError /
+   NotImplementedError -> PGPDecryptionError; then key, checksum, length-and-checksum test); pkesk_open_spec is its closed
+   form, which is the model's pkesk_open read through exc_name *)
+Definition pkesk_open_spec (m : bytes) : gres (Z * bytes) :=
+  match m with
+  | [] => GRaise "PGPDecryptionError"
+  | a :: r =>
+    if negb (sym_valid a) then GRaise "PGPDecryptionError" else
+    match key_octets a with
+    | None => GRaise "PGPDecryptionError"
+    | Some n =>
+      let symkey := firstn n r in
+      let checksum := bytes_to_int (firstn 2 (skipn n r)) in
+      if negb (length symkey =? n)%nat || negb (sumz symkey mod 65536 =? checksum)
+      then GRaise "PGPDecryptionError" else GOk (a, symkey)
+    end
+  end.
+Lemma gen_pkesk_open_spec m : gen_pkesk_open m = pkesk_open_spec m.
 Proof.
-  unfold gen_pkesk_open, pkesk_open. destruct m as [|a r]; [reflexivity|]. cbn [nth_error skipn].
+  unfold gen_pkesk_open, pkesk_open_spec. destruct m as [|a r]; [reflexivity|]. cbn [nth_error].
   change (existsb (Z.eqb a) gen_members_SymmetricKeyAlgorithm) with (sym_valid a).
   destruct (sym_valid a); cbn [negb]; [|reflexivity].
   unfold key_octets. rewrite refine_key_bits. destruct (key_bits a) as [b|] eqn:E; cbn [gres_of_opt]; [|reflexivity].
   pose proof (key_bits_cases _ _ E) as Hb.
   assert (Hq : 0 <= b / 8) by (apply Z.div_pos; lia).
-  rewrite py_upto_nonneg, py_from_nonneg by exact Hq. cbv zeta. unfold bytes_to_int.
-  destruct (negb (sumz (firstn (Z.to_nat (b / 8)) r) mod 65536 =? unbe (firstn 2 (skipn (Z.to_nat (b / 8)) r)))); reflexivity.
+  cbv zeta. cbn [skipn]. rewrite py_upto_nonneg, py_from_nonneg by exact Hq. unfold bytes_to_int.
+  replace (Z.of_nat (length (firstn (Z.to_nat (b / 8)) r)) =? b / 8)
+    with (length (firstn (Z.to_nat (b / 8)) r) =? Z.to_nat (b / 8))%nat by lia.
+  destruct (negb (length (firstn (Z.to_nat (b / 8)) r) =? Z.to_nat (b / 8))%nat
+            || negb (sumz (firstn (Z.to_nat (b / 8)) r) mod 65536 =? unbe (firstn 2 (skipn (Z.to_nat (b / 8)) r)))); reflexivity.
+Qed.
+Lemma refine_pkesk_open m : gen_pkesk_open m = gres_of_res (pkesk_open m).
+Proof.
+  rewrite gen_pkesk_open_spec. unfold pkesk_open_spec, pkesk_open. destruct m as [|a r]; [reflexivity|].
+  destruct (negb (sym_valid a)); [reflexivity|]. destruct (key_octets a) as [n|]; [|reflexivity].
+  cbv zeta. destruct (_ || _); reflexivity.
 Qed.
 
 (* ---------- IntegrityProtectedSKEDataV1 ---------- *)
